@@ -116,9 +116,8 @@ theorem dec_val : ∀ (v : Value) (t : Ty) (r rest : Bytes) (fuel : Nat),
     obtain ⟨f, rfl⟩ : ∃ f, fuel = f + 1 := ⟨fuel - 1, by simp [sz] at hf; omega⟩
     simp only [encVal, Except.ok.injEq] at he; subst he
     cases t <;> simp only [wellTyped, Bool.false_eq_true, Bool.and_eq_true, beq_iff_eq] at hw
-    have hcs : Clean n := by have := (cleanC_encode n).clean; rwa [hw.2] at this
     have hm : n ∈ _ := List.contains_iff_mem.mp hw.1
-    simp [decode, hw.2, sectionOr_value _ n rest hcs hs, hm]
+    simp [decode, nextSection_value _ rest (cleanC_encode _).clean hs, decodeStr, hP.pct, hw.2, hm]
   | .none, t, r, rest, fuel, hw, _, he, hs, hf => by
     obtain ⟨f, rfl⟩ : ∃ f, fuel = f + 1 := ⟨fuel - 1, by simp [sz] at hf; omega⟩
     simp only [encVal, Except.ok.injEq] at he; subst he
